@@ -155,6 +155,46 @@ theorem open_seal_any_history (ops1 ops2 : List WOp) {c s : Nat} {dst pt oracle 
     have := open_logged (r := r) hi3 hr3 hc3 rfl hlab ho hn
     simpa [r, c2] using this
 
+/-- side conditions on the regenerated `AuthData` layout: the version field is the first four
+bytes, the label id follows immediately and fills the rest of the buffer -/
+theorem ad_layout : adVersionOff = 0 ∧ adVersionEnd = 4 ∧ adLabelOff = 4 ∧
+    adSize = adLabelOff + labelIdSize := by decide
+
+theorem adBytes_eq {v : Nat} {l : List UInt8} (hl : l.length = labelIdSize) :
+    adBytes v l = some (leBytes v 4 ++ l) := by
+  obtain ⟨h1, h2, h3, h4⟩ := ad_layout
+  unfold adBytes
+  have hh : ¬ l.length ≠ adSize - adLabelOff := by omega
+  rw [if_neg hh]
+  simp only [h1, h2, h3]
+  simp [leBytes_length]
+
+/-- **The additional data binds version and label**: `AuthData::to_bytes` is injective in
+(version, label id) — every byte of the label id and of the `u32` version is authenticated — and
+has the fixed length `AuthData::PACKED_SIZE`. -/
+theorem ad_inj {v v' : Nat} {l l' b : List UInt8} (hv : v < 2 ^ 32) (hv' : v' < 2 ^ 32)
+    (hl : l.length = labelIdSize) (hl' : l'.length = labelIdSize)
+    (h : adBytes v l = some b) (h' : adBytes v' l' = some b) :
+    v = v' ∧ l = l' ∧ b.length = adSize := by
+  rw [adBytes_eq hl] at h
+  rw [adBytes_eq hl'] at h'
+  have e : leBytes v 4 ++ l = leBytes v' 4 ++ l' := by
+    rw [Option.some.inj h, Option.some.inj h']
+  have := List.append_inj e (by simp [leBytes_length])
+  have hvv : v = v' := by
+    have h4 := congrArg ofLe this.1
+    rw [ofLe_leBytes, ofLe_leBytes] at h4
+    have : (256:Nat) ^ 4 = 2 ^ 32 := by decide
+    rw [this, Nat.mod_eq_of_lt hv, Nat.mod_eq_of_lt hv'] at h4
+    exact h4
+  refine ⟨hvv, this.2, ?_⟩
+  rw [← Option.some.inj h]
+  obtain ⟨_, _, h3, h4⟩ := ad_layout
+  simp [leBytes_length, hl]; omega
+
+example : adBytes 0x6f54 (List.replicate 32 7) = some ([0x54, 0x6f, 0, 0] ++ List.replicate 32 7) := by
+  decide
+
 /-- **Opening never panics**: for every world, channel, output buffer and *every byte string*
 (in particular those shorter than header + tag) both `open` and the fixed `open_in_place` return
 `ok` or an error. -/
